@@ -40,10 +40,10 @@ ASSUMPTIONS = ['both worlds run the same glue code: a bug that is wrong in the s
                'sampling, not proof']
 SIMTIME_NOTE = 'simulated poll-clock seconds advanced by the scheduler (FileWatcher timer)'
 PROBES = ['write_after_read', 'nested_state_after_update', 'shape_change_after_read', 'file_reload_fired', 'linked_mask_after_update',
-          'stat_after_update', 'copy_read', 'view_read', 'poll_tick_no_change', 'poll_after_file_vanished']
+          'stat_after_update', 'copy_read', 'view_read', 'poll_tick_no_change', 'poll_after_file_vanished', 'link_swapped_same_endpoints']
 
 READS = ('read_mask', 'read_val', 'read_stat', 'read_hist', 'read_copy')
-WEIGHTS = {'upd': 6, 'upd_from': 2, 'set_state': 3, 'edit_top': 3, 'add_comp': 1, 'add_link': 1.5, 'remove_link': 0.7,
+WEIGHTS = {'upd': 6, 'upd_from': 2, 'set_state': 3, 'edit_top': 3, 'add_comp': 1, 'add_link': 1.5, 'remove_link': 0.7, 'swap_link': 1.5,
            'new_group': 2, 'remove_group': 0.5, 'new': 1, 'append': 1.5, 'rewrite': 1.5, 'advance': 2, 'vanish': 0.2,
            'read_mask': 8, 'read_val': 3, 'read_stat': 3, 'read_hist': 2, 'read_copy': 1, 'check': 1.2,
            'edit_memo': 2, 'edit_nested': 2}
@@ -65,6 +65,10 @@ def generate(rng, cfg, guards):
         ops.append(['new_file', rng.randrange(3, 7), rng.randrange(1, 3), rng.randrange(10000)])
     ops.append(['new', rng.randrange(len(W.SHAPES)), rng.randrange(1, 3), rng.randrange(10000), rng.chance(0.4), 0, rng.chance(0.3)])
     ops.append(['append', len(ops) - 1])
+    if rng.chance(0.45):
+        ops.append(['new', rng.randrange(len(W.SHAPES)), rng.randrange(1, 3), rng.randrange(10000), False, 0, False])
+        ops.append(['append', len(ops) - 1])
+        ops.append(['add_link', 0, r8(), 1, r8(), rng.pick(sorted(LF.ONE))])
     ops.append(['new_group', W.gen_recipe(rng, 2, kinds)])
     while len(ops) < n:
         k = rng.wpick(pairs)
@@ -88,6 +92,8 @@ def generate(rng, cfg, guards):
             ops.append([k, r8(), r8(), r8(), r8(), rng.pick(sorted(LF.ONE))])
         elif k in ('remove_link', 'remove_group'):
             ops.append([k, r8()])
+        elif k == 'swap_link':
+            ops.append([k, r8(), rng.pick(sorted(LF.ONE)), rng.chance(0.5)])
         elif k == 'rewrite':
             ops.append([k, rng.randrange(10000), rng.chance(0.2)])
         elif k == 'advance':
@@ -387,6 +393,25 @@ def apply_op(w, op, res, reading, skip=False):
             return 'guarded'
         if live:
             dc.remove_link(live[op[1] % len(live)])
+    elif k == 'swap_link':
+        # replace a link by another one with the same end points and a different function, in one link-manager update:
+        # the set of reachable attributes stays the same, the values must change
+        live = [l for l in w.links if any(l is x for x in dc.external_links)]
+        if 'C05-link-change' in w.guards and any(memo_owner(g.subset_state) and id(g.subset_state) in w.read_states
+                                                 for g in dc.subset_groups):
+            return 'guarded'
+        if live:
+            old = live[op[1] % len(live)]
+            fw, bw = LF.ONE[op[2]]
+            new = ComponentLink(list(old.get_from_ids()), old.get_to_id(), using=fw, inverse=bw)
+            if op[3]:
+                with dc.delay_link_manager_update():
+                    dc.remove_link(old)
+                    dc.add_link(new)
+            else:
+                dc.set_links([new if l is old else l for l in dc.external_links])
+            w.links.append(new)
+            res.probe('link_swapped_same_endpoints')
     elif k == 'rewrite':
         if w.files:
             f = w.files[0]
@@ -510,6 +535,7 @@ def run_world(case, res, upto, reading, tmp, decisions):
                     if reading:
                         res.probe('write_after_read')
             elif out == 'check' and reading:
+                check_direct_links(w, meta)
                 obs[i] = (observe(w), dict(meta), fingerprint(w, meta))
         final = None
         if not reading:
@@ -520,6 +546,36 @@ def run_world(case, res, upto, reading, tmp, decisions):
         auto_refresh(False)
         for t in list(clock.heap):
             t[2].active = False
+
+
+def check_direct_links(w, meta):
+    """Independent part of the oracle (the twin shares write-side caches): an attribute that a dataset reaches through a
+    registered link directly from one of its own attributes has cost 1, the minimum, so its value must be the function of
+    one of the *currently registered* direct links applied to the current input values."""
+    dc = w.dc
+    live = [l for l in w.links if any(l is x for x in dc.external_links)]
+    for d in dc:
+        own = list(d.components)
+        targets = {}
+        for l in live:
+            a, b = l.get_from_ids()[0], l.get_to_id()
+            if any(a is c for c in own) and not any(b is c for c in own):
+                targets.setdefault(id(b), (b, []))[1].append((l.get_using(), a))
+            if l.get_inverse() is not None and any(b is c for c in own) and not any(a is c for c in own):
+                targets.setdefault(id(a), (a, []))[1].append((l.get_inverse(), b))
+        for cid, cands in targets.values():
+            try:
+                got = np.asarray(d[cid], dtype=float)
+            except Exception:
+                continue
+            ok = False
+            for f, src in cands:
+                exp = np.asarray(f(np.asarray(d[src], dtype=float)), dtype=float)
+                if exp.shape == got.shape and np.all((exp == got) | (np.isnan(exp) & np.isnan(got))):
+                    ok = True
+            if not ok:
+                raise Violation('C05/stale-linked-value/after:%s' % meta['last_write'],
+                                'dataset %s reads %s through no currently registered direct link (%d candidates)' % (d.label, cid.label, len(cands)))
 
 
 def fingerprint(w, meta):
